@@ -26,7 +26,10 @@ _FMTS = {}
 
 def str_lit(x: str):
     if x not in _LITS:
-        _LITS[x] = z3.Const("lit:" + repr(x), S)
+        import hashlib
+        import re as _re
+
+        _LITS[x] = z3.Const("lit_" + _re.sub(r"[^A-Za-z0-9]+", "_", x)[:24] + "_" + hashlib.sha1(x.encode()).hexdigest()[:6], S)
     return _LITS[x]
 
 
@@ -84,11 +87,15 @@ def str_concat(parts) -> "StrV":
     shape = tuple(x if isinstance(x, str) else None for x in flat)
     holes = [x for x in flat if not isinstance(x, str)]
     if shape not in _FMTS:
-        name = "fmt|" + "|".join("%" if x is None else x for x in shape) + "|"
+        import hashlib
+        import re as _re
+
+        readable = "_".join("H" if x is None else _re.sub(r"[^A-Za-z0-9]+", "", x) for x in shape)
+        name = "fmt_" + readable + "_" + hashlib.sha1(repr(shape).encode()).hexdigest()[:6]  # SMT-LIB-safe symbol
         f = z3.Function(name, *([S] * len(holes) + [S]))
         inv = None
         if holes and shape[-1] is None and len(shape) >= 2 and isinstance(shape[-2], str) and shape[-2] and not shape[-2][-1].isdigit():
-            inv = z3.Function("last:" + name, S, S)
+            inv = z3.Function("last_" + name, S, S)
         _FMTS[shape] = (f, inv)
     f, _inv = _FMTS[shape]
     r = StrV(f(*holes))
